@@ -16,7 +16,9 @@ ASSUMPTIONS = ['a plain line can denote a password only if it is not itself of t
 WORDS = ['password', 'pass word', ' lead', 'trail ', 'two  spaces', 'ümlaut', 'пароль', 'Σίσυφος', '$HEX[41]x', '$HEX[zz]', 'a$HEX[41]',
          '123456', 'p@ss!', '1 2 3', '５', 'tab\there', 'ctl\x01', 'us\x1fx', '\x1flead', 'esc\x1bx', 'nul\x00x', 'del\x7fx', 'nbsp\xa0x', '\xa0lead', 'x', '😀pw', '', ' ', '$HEX[]', 'q' * 30,
          # U+FEFF is an ordinary character wherever it stands (a byte order mark is not part of the supported encodings' contract)
-         '\ufeffbom', 'in\ufeffside', '\ufeff']
+         '\ufeffbom', 'in\ufeffside', '\ufeff',
+         # first byte 0xE0..0xEF (three-byte UTF-8 sequences, Latin-1 / cp1251 letters): a payload whose first hex digit is the letter E
+         '\u20acuro', '\u3042\u3044pw', '\xe9t\xe9', '\u0445\u0430\u043a\u0435\u0440', 'EEk', '\xee\xee']
 
 
 def cps(s):
@@ -36,7 +38,7 @@ def gen_lines(rng, enc):
         if r < 0.55:
             lines.append(('plain', b))
         elif r < 0.8:
-            lines.append(('hex', b'$HEX[' + b.hex().encode() + b']'))
+            lines.append(('hex', b'$HEX[' + (b.hex().upper() if rng.random() < 0.5 else b.hex()).encode() + b']'))
         elif r < 0.87:
             lines.append(('badbytes', b[:1] + b'\xff\xfe' + b[1:]))
         elif r < 0.93:
@@ -201,9 +203,11 @@ def run(ctx):
         # --- file B: every valid plain password re-written as $HEX[], must yield the same sequence
         pb = os.path.join(root, 'b.txt')
         with open(pb, 'wb') as f:
-            for k, b in lines:
+            for li, (k, b) in enumerate(lines):
                 if k == 'plain' and not (b.startswith(b'$HEX[') and b.endswith(b']')):
-                    f.write(b'$HEX[' + b.hex().encode() + b']' + eol)
+                    # hex digits in either case (A-F are digits of the payload, whatever letters the wrapper is made of)
+                    hx = b.hex().upper() if li % 2 else b.hex()
+                    f.write(b'$HEX[' + hx.encode() + b']' + eol)
                 else:
                     f.write(b + eol)
         outB, nB, eB, err = real_read(pb, enc, False)
